@@ -12,3 +12,14 @@ claim('C03', 'exploration', 'bounded-exhaustive literal enumeration against a re
       '(with trailing comments of every style and inside lists, under four environments) and the stored string is compared with a decoder written from the statement. '
       'The decoding table is a set of overlapping longest-match rules over byte classes, so class-exhaustive enumeration to the bound is the level that reaches every rule interaction.',
       'Trusts: the 24 representatives stand for their byte classes (other bytes of a class are only sampled); bodies the statement leaves open (NUL escapes, unterminated ${) are executed but not judged.')
+
+claim('C09', 'exploration', 'bounded-exhaustive call-sequence enumeration checked against an executable reference store after every call (history + model monitor, ASan+UBSan build)',
+      'All call sequences to the depth bound over a 64-call alphabet (every setter family, list set/append, bulk set good/bad, section add/remove by index/title/path, '
+      'wrong-type / bad-index / unknown-name calls) from the initial and three parsed states run against the real library; after every call the return value and the whole '
+      'tree are compared with a 150-line abstract store. Order-dependent interactions (first append on pristine defaults, remove then add) need sequence enumeration, which is this level.',
+      'Trusts: the abstract store (model_store.py) as the reading of the statement; unspecified calls (index gaps, setmulti of several values on a scalar, addtsec on untitled sections) end the judged prefix.')
+
+claim('C10', 'fault_enumeration', 'complete enumeration of (option kind x prepared state x refusing call x failing position) with before/after snapshot equality (invariant at the API boundary, ASan+UBSan build)',
+      'Every refusing call of the statement is issued against every prepared option state with the offending element / failing callback at every position; the oracle needs no model: '
+      'the call must report failure and the full dump (values, order, annotation, RESET/MODIFIED/COMMENTS bits) must be identical before and after. The space is finite and is enumerated completely.',
+      'Trusts: the dump walks everything the statement names (values, count, order, annotation, marker bits) through public accessors and public struct fields.')
